@@ -279,6 +279,8 @@ class TinyExec:
             raise Unsupported("unbound %s" % n.id)
         if isinstance(n, ast.Tuple):
             return tuple(self.ev(e, env, so) for e in n.elts)
+        if isinstance(n, ast.Slice):
+            return slice(*[self.ev(x, env, so) if x is not None else None for x in (n.lower, n.upper, n.step)])
         if isinstance(n, ast.JoinedStr):
             out = ""
             for part in n.values:
@@ -409,7 +411,9 @@ class TinyExec:
                     raise Unsupported("call depth")
                 return TinyExec(self.repo, self.cls, self.path, self.depth + 1, self.stubs).call(parts[1], so, *args)
             if isinstance(n.func, ast.Attribute) and n.func.attr in ("strip", "lower", "upper", "isdigit", "lstrip", "rstrip", "startswith",
-                                                                    "endswith", "replace", "isnumeric", "join", "format"):
+                                                                    "endswith", "replace", "isnumeric", "join", "format", "isdecimal", "isalpha", "isalnum", "isspace", "split", "rsplit",
+                                                                    "partition", "rpartition", "casefold", "title", "capitalize", "count", "find", "removeprefix",
+                                                                    "removesuffix", "zfill", "splitlines"):
                 base = self.ev(n.func.value, env, so)
                 if isinstance(base, str):
                     return getattr(base, n.func.attr)(*args)
